@@ -96,8 +96,6 @@ C_TEXTS = [
                         r"unsigned char \*usrc = \(unsigned char \*\)src;\s*"
                         r"return \(ssrc\[0\] << 24\) \| \(usrc\[1\] << 16\) \| \(usrc\[2\] << 8\) \| usrc\[3\];\s*\}"),
     ("src/c/cdlopen.c", r"static _cffi_opcode_t cdl_opcode\(char \*src\)\s*\{\s*return \(_cffi_opcode_t\)cdl_4bytes\(src\);\s*\}"),
-    ("src/c/cdlopen.c", r"nintconsts\[i\]\.neg = PyObject_RichCompareBool\(o, Py_False,\s*Py_LE\);\s*"
-                        r"nintconsts\[i\]\.value = PyLong_AsUnsignedLongLongMask\(o\);"),
     ("src/c/cdlopen.c", r"gc->value = ic->value;\s*return ic->neg;"),
     ("src/c/cdlopen.c", r"nstructs\[i\]\.type_index = cdl_4bytes\(s\); s \+= 4;\s*nstructs\[i\]\.flags = cdl_4bytes\(s\); s \+= 4;\s*"
                         r"nstructs\[i\]\.name = s;"),
@@ -128,6 +126,137 @@ def check_c_texts(repo):
             raise Untranslatable("%s: the decoder text modelled in C11/Model.v changed (%s...)" % (rel, pat[:50]))
 
 
+# ---------------------------------------------------------------- ffiobj_init: sign/value of integer constants
+_IC_TOK = re.compile(r"\s*(?:([A-Za-z_]\w*(?:\[i\]\.\w+)?)|(\d+)|(<=|>=|==|!=|[-<>()=,;*]))")
+
+
+def _ic_tokens(text):
+    pos, out = 0, []
+    while pos < len(text):
+        m = _IC_TOK.match(text, pos)
+        if not m:
+            if not text[pos:].strip():
+                break
+            raise Untranslatable("ffiobj_init int constants: cannot tokenize %r" % text[pos:pos + 30])
+        out.append(m.group(1) or m.group(2) or m.group(3))
+        pos = m.end()
+    return out
+
+
+class _IcExpr:
+    """Z-valued C expressions over the Python int `o`: PyLong_AsUnsignedLongLongMask(o), PyObject_RichCompareBool(o,
+    Py_False|Py_True, Py_LT..Py_GE), (long long)/(unsigned long long) casts, comparisons with literals, locals."""
+    RICH = {"Py_LT": "<?", "Py_LE": "<=?", "Py_EQ": "=?", "Py_GT": ">?", "Py_GE": ">=?"}
+    CMP = {"<": "<?", "<=": "<=?", "==": "=?", ">": ">?", ">=": ">=?"}
+
+    def __init__(self, toks, env):
+        self.t, self.i, self.env = toks, 0, env
+
+    def peek(self, k=0):
+        return self.t[self.i + k] if self.i + k < len(self.t) else None
+
+    def take(self, want=None):
+        if self.peek() is None or (want is not None and self.peek() != want):
+            raise Untranslatable("ffiobj_init int constants: expected %r in %r" % (want, " ".join(self.t)))
+        self.i += 1
+        return self.t[self.i - 1]
+
+    def parse(self):
+        e = self.cmp()
+        if self.peek() is not None:
+            raise Untranslatable("ffiobj_init int constants: trailing tokens in %r" % " ".join(self.t))
+        return e
+
+    def cmp(self):
+        a = self.unary()
+        if self.peek() in self.CMP:
+            op = self.take()
+            b = self.unary()
+            return ("bool", "(%s %s %s)" % (a[1], self.CMP[op], b[1]))
+        return a
+
+    def unary(self):
+        x = self.peek()
+        if x == "(":
+            # cast?
+            j = self.i + 1
+            ty = []
+            while j < len(self.t) and self.t[j] in ("unsigned", "long", "int", "signed"):
+                ty.append(self.t[j])
+                j += 1
+            if ty and j < len(self.t) and self.t[j] == ")":
+                self.i = j + 1
+                inner = self.unary()
+                if ty == ["long", "long"]:
+                    return ("z", "(wrap_signed 64 %s)" % inner[1])
+                if ty == ["unsigned", "long", "long"]:
+                    return ("z", "(%s mod 2 ^ 64)" % inner[1])
+                raise Untranslatable("ffiobj_init int constants: cast to %r" % " ".join(ty))
+            self.take("(")
+            e = self.cmp()
+            self.take(")")
+            return e
+        if x == "-":
+            self.take()
+            return ("z", "(- %s)" % self.unary()[1])
+        x = self.take()
+        if x.isdigit():
+            return ("z", x)
+        if x == "PyLong_AsUnsignedLongLongMask":
+            self.take("(")
+            self.take("o")
+            self.take(")")
+            return ("z", "(o mod 2 ^ 64)")
+        if x == "PyObject_RichCompareBool":
+            self.take("(")
+            self.take("o")
+            self.take(",")
+            rhs = {"Py_False": "0", "Py_True": "1"}.get(self.take())
+            self.take(",")
+            op = self.RICH.get(self.take())
+            self.take(")")
+            if rhs is None or op is None:
+                raise Untranslatable("ffiobj_init int constants: unsupported PyObject_RichCompareBool arguments")
+            return ("bool", "(o %s %s)" % (op, rhs))
+        if x in self.env:
+            return self.env[x]
+        raise Untranslatable("ffiobj_init int constants: unknown name %r" % x)
+
+
+def intconst_facts(repo):
+    text = X.strip_c_comments(X.read(repo, "src/c/cdlopen.c"))
+    a = text.find("PyObject *o = PyTuple_GET_ITEM(globals, i * 2 + 1);")
+    b = text.find("ffi->types_builder.ctx.globals = nglobs;")
+    if a < 0 or b < a:
+        raise Untranslatable("ffiobj_init: the integer-constant block was not found")
+    block = text[a + len("PyObject *o = PyTuple_GET_ITEM(globals, i * 2 + 1);"):b]
+    env, neg, value = {}, None, None
+    for stmt in block.replace("{", ";").replace("}", ";").split(";"):
+        st = " ".join(stmt.split())
+        if not st or st == "goto error" or st.startswith("if (") or st == "nglobs[i].address = &_cdl_realize_global_int":
+            # error checks (`if (PyErr_Occurred()) goto error`) do not change the stored values
+            if st.startswith("if (") and not re.fullmatch(r"if \((\w+ == \(unsigned long long\)-1 && )?PyErr_Occurred\(\)\)( goto error)?", st):
+                raise Untranslatable("ffiobj_init int constants: unexpected test %r" % st)
+            continue
+        m = re.fullmatch(r"(?:unsigned long long (\w+)|(nintconsts\[i\]\.(?:neg|value))) = (.*)", st)
+        if not m:
+            raise Untranslatable("ffiobj_init int constants: unexpected statement %r" % st)
+        e = _IcExpr(_ic_tokens(m.group(3)), env).parse()
+        if m.group(1):
+            env[m.group(1)] = e
+        elif m.group(2).endswith(".neg"):
+            neg = e
+        else:
+            value = e
+            env["nintconsts[i].value"] = e
+    if neg is None or value is None or neg[0] != "bool" or value[0] != "z":
+        raise Untranslatable("ffiobj_init int constants: neg/value assignments not found")
+    return "\n".join([
+        "(* ffiobj_init (src/c/cdlopen.c): what is stored for the Python int o of an integer constant / enumerator *)",
+        "Definition gen_intconst_neg (o : Z) : bool := %s." % neg[1],
+        "Definition gen_intconst_value (o : Z) : Z := %s." % value[1]])
+
+
 def render(repo):
     op = py2coq.parse_source(os.path.join(repo, "src/cffi/cffi_opcode.py"))
     rc = py2coq.parse_source(os.path.join(repo, "src/cffi/recompiler.py"))
@@ -145,7 +274,8 @@ def render(repo):
         "(* ---- cffi_opcode.CffiOp.as_python_bytes *)", as_python_bytes(op), "",
         "(* ---- OP_* / F_* of cffi_opcode.py and _CFFI_OP_* / _CFFI_F_* of parse_c_type.h *)",
         tbl("py_ops", X.py_int_constants(op, "OP_")), tbl("c_ops", X.c_defines(h, "_CFFI_OP_")),
-        tbl("py_flags", X.py_int_constants(op, "F_")), tbl("c_flags", X.c_defines(h, "_CFFI_F_")), ""]
+        tbl("py_flags", X.py_int_constants(op, "F_")), tbl("c_flags", X.c_defines(h, "_CFFI_F_")), "",
+        intconst_facts(repo), ""]
     return "\n".join(parts)
 
 
